@@ -6,6 +6,7 @@ import (
 
 	"verifharness/adapt"
 	"verifharness/mon"
+	"verifharness/refmodel"
 	"verifharness/runner"
 	"verifharness/val"
 )
@@ -299,6 +300,20 @@ func (p *c01) RunCase(ctx *runner.Ctx) runner.CaseResult {
 			op = mon.RemoveUpdate(spec.Name, k, mon.Pick(r, mon.AttrNames))
 		case 4:
 			op = mon.AddUpdate(spec.Name, k, "n", val.Num(mon.Pick(r, []string{"1", "2", "-1", "10"})))
+			if r.Intn(3) == 0 {
+				// several actions in one update: a copy of the counter next to the ADD that changes it (the copy holds
+				// the OLD value), a SET and a REMOVE alongside
+				u := &refmodel.Update{Actions: []refmodel.Action{
+					{Kind: "SET", Path: refmodel.P("prev"), RHS: &refmodel.UExpr{Kind: "path", Path: refmodel.P("n")}},
+					{Kind: "ADD", Path: refmodel.P("n"), RHS: &refmodel.UExpr{Kind: "val", Val: ":v"}},
+				}}
+				if r.Intn(2) == 0 {
+					u.Actions = append(u.Actions, refmodel.Action{Kind: "REMOVE", Path: refmodel.P(mon.Pick(r, []string{"b", "c", "d"}))})
+				}
+				// (the copy reads n through if_not_exists: the counter may not exist yet, and a bare missing path is an error)
+				u.Actions[0].RHS = &refmodel.UExpr{Kind: "ifne", Path: refmodel.P("n"), Kids: []*refmodel.UExpr{{Kind: "val", Val: ":v"}}}
+				op = adapt.Op{Kind: adapt.OpUpdate, Table: spec.Name, Key: k, Update: u.Render(map[string]string{}, refmodel.RenderOpts{}), UpdAST: u, Values: val.Item{":v": val.Num(mon.Pick(r, []string{"1", "25", "-3"}))}}
+			}
 		default:
 			op = c01Op(spec, t, k, i)
 		}
